@@ -68,6 +68,26 @@ class LDate(ADT):
     def change_scale(self, scale):
         return LDate(self.t, scale if isinstance(scale, str) else scale.name, self.same_day)
 
+    JD_MJD = 2400000.5
+
+    @property
+    def scale(self):
+        """the label itself: `date.scale.name == "TDB"` is a (possibly symbolic) test on the label"""
+        lab = self.label
+
+        class _Name:
+            def __eq__(_s, other):
+                if isinstance(lab, str):
+                    return lab == other
+                return lab == SCALES.index(other)
+
+            def __ne__(_s, other):
+                r = _s.__eq__(other)
+                return (not r) if isinstance(r, bool) else ~r
+
+            __hash__ = None
+        return types.SimpleNamespace(name=_Name())
+
     # label dependent
     d = property(lambda self: self._obs("d"))
     s = property(lambda self: self._obs("s"))
